@@ -17,6 +17,42 @@ EXPLANATION = ("Safety half of C10 by structure: every expiry-index operation is
 ASSUMPTIONS = ["ids are unique per incarnation (fetch_add generator)", "hashbrown::HashMap::retain calls the closure once per entry"]
 
 
+def retain_table(F, c):
+    """rows (now <= expiry, kept, hooks called) of a sweep predicate closure(env, id, expiry), one per outcome of each
+    symbolic path; the rows contradicting `keep <=> now <= expiry, hook(id) exactly once iff not kept`; the name of
+    the captured `now`"""
+    from sym import ipaths, bool_outcomes
+    rows, bad = [], []
+    nowcap = None
+    for p in ipaths(F, c, stop=lambda n: False, depth=2):
+        hooks = [e for e in p.events if not e.log and e.generic.startswith("std::ops::Fn") and mentions(e.args[0], lambda s_: s_ == ("env",))]
+        for atoms, keep in bool_outcomes(p):
+            le = None
+            for a in atoms:
+                if a[0] == "bool" and a[1][0] == "call" and a[1][1].endswith("PartialOrd::le") and len(a[1][2]) == 2:
+                    x, y = a[1][2]
+                    if x[0] == "field" and x[1] == ("env",) and y == ("param", 3):
+                        nowcap = x[2].lstrip("*")
+                        nowcap = x[2]
+                        le = a[2]
+                    elif y[0] == "field" and y[1] == ("env",) and x == ("param", 3):
+                        bad.append("the boundary is tested as expiry <= now: an entry would be evicted at its exact expiry instant, which reads still serve")
+                    else:
+                        bad.append("unrecognised comparison %s" % fmt(a[1])[:80])
+            if le is None:
+                bad.append("an outcome is reached without comparing now with the entry's expiry")
+                continue
+            rows.append((le, keep, len(hooks)))
+            if keep != le:
+                bad.append("now <= expiry is %s but the entry is %s" % (le, "kept" if keep else "dropped"))
+            if len(hooks) != (0 if keep else 1):
+                bad.append("entry %s but the evict hook runs %d time(s)" % ("kept" if keep else "dropped", len(hooks)))
+            for h in hooks:
+                if not mentions(h.args[1], lambda s_: s_ == ("param", 2)):
+                    bad.append("the evict hook is not given the entry's id")
+    return rows, bad, nowcap
+
+
 def run(ctx):
     F = ctx.facts
     T = TickerModel(ctx)
@@ -64,24 +100,13 @@ def run(ctx):
         c = F.fn(clo[1])
         ctx.touch(c)
         caps = dict(clo[3])
-        ctx.check(strip_site(caps.get("now")) == strip_site(sa) if sa else False, "R10.2", "%s|one-now-per-sweep" % c.name,
+        nowname = retain_table(F, c)[2] or "now"
+        ctx.check(strip_site(caps.get(nowname)) == strip_site(sa) if sa else False, "R10.2", "%s|one-now-per-sweep" % c.name,
                   "the predicate's `now` is the same reading that selected the shard", c.where())
-        hooks = [(b, t) for b, t in c.calls() if t["callee"].startswith("std::ops::Fn") and mentions(c.op_origin(t["args"][0]), lambda s: s == ("env",))]
-        ok = len(hooks) == 1
-        if ok:
-            hb, ht = hooks[0]
-            keep = None
-            for b in sorted(c.live_blocks()):
-                br = bool_branch(c, b)
-                if br and br[0][0] == "call" and br[0][1].endswith("PartialOrd::le"):
-                    keep = (b, br)
-            ok = keep is not None and c.edge_dominates((keep[0], keep[1][2]), hb) and hb not in c.reach([keep[1][1]])
-            arg = c.op_origin(ht["args"][1])
-            ok = ok and mentions(arg, lambda s: s == ("param", 2))
-            r = c.origin_local(0)
-            ok = ok and keep is not None and strip_site(r) == strip_site(keep[1][0])
-        ctx.check(ok, "R10.2", "%s|hook-iff-not-kept" % c.name,
-                  "the evict hook is called exactly when the entry is not retained (now > expiry), with that entry's id, and the predicate's result is the comparison itself", c.where())
+        rows, bad, nowcap = retain_table(F, c)
+        ctx.check(not bad and {r_[0] for r_ in rows} == {True, False}, "R10.2", "%s|hook-iff-not-kept" % c.name,
+                  "the evict hook is called exactly when the entry is not retained (now > expiry), with that entry's id, and the predicate's result is that comparison (%d rows)" % len(rows), c.where(),
+                  "; ".join(sorted(set(bad))[:3]))
     c09_boundary(ctx)
 
     # ---- R10.3 registration pairing ------------------------------------------------------------------
